@@ -480,6 +480,23 @@ Example ex_empty_username_serves_everything :
   channel ex_b64 ex_sha [] ex_stored (ex_block [120]) [MTrue] = (Serve 0, [Invoked 0%nat]).
 Proof. vm_compute. reflexivity. Qed.
 
+(* Known finding C17-colon-user: a configured username that contains a colon can
+   never authenticate, because the decoded credential is split at its FIRST
+   colon; `good_credentials_served` therefore carries the hypothesis
+   ~ In 58 user.  Witness: user a:b, password pw, credential a:b:pw. *)
+Lemma colon_user_refuted :
+  exists user stored p cookie,
+    user <> [] /\ In 58 user /\ password_ok ex_sha stored p /\
+    ex_b64 cookie = Some (user ++ 58 :: p) /\
+    first_auth [[97; 117; 116; 104; 111; 114; 73; 122; 97; 116; 105; 111; 110; 58; 32; 66; 97; 83; 105; 67; 32] ++ cookie]
+      = Some ([66; 97; 83; 105; 67], cookie) /\
+    channel ex_b64 ex_sha user stored (ex_block cookie) [MTrue] = (Refuse401, []).
+Proof.
+  exists [97; 58; 98], [112; 119], [112; 119], [97; 58; 98; 58; 112; 119].
+  split; [discriminate|]. split; [simpl; auto|]. split; [reflexivity|].
+  split; [reflexivity|]. split; vm_compute; reflexivity.
+Qed.
+
 Example ex_presents :
   presents ex_b64 (r_header {| r_command := []; r_uri := []; r_version := None;
                                r_header := [[65; 85; 84; 72; 79; 82; 73; 90; 65; 84; 73; 79; 78; 58; 32;
